@@ -397,7 +397,7 @@ def case(arg):
                 out["viol"].append({"mech": "does-not-compile:" + err, "what": "%s -std=%s (traits %s): %s" % (bad[0], bad[1], traits, " | ".join(ctx_lines)[:700]),
                                     "files": files, "traits": traits, "case": i, "kind": kind})
             subprocess.run(["rm", "-rf", wd])
-    out["viol"] = out["viol"][:40]
+    out["viol"] = common.cap_by_mech(out["viol"])
     return out
 
 
